@@ -21,10 +21,10 @@
    acknowledged a prefix >= k in term t) has no influence on any guard; the
    ghost-free forms are [leader_completeness_trace], [state_machine_safety],
    [committed_never_replaced]. *)
-From DB Require Import Model.RaftNet Model.RaftNetSnap Model.RaftNetCfg Proofs.RaftNetLists
-  Proofs.RaftNetElection Proofs.RaftNetLog Proofs.RaftNetCommitDefs Proofs.RaftNetCommit
-  Proofs.RaftNetSafety Proofs.RaftNetSnap Proofs.RaftNetCfgLemmas Proofs.RaftNetCfgInv
-  Proofs.RaftNetCfgStep Proofs.RaftNetCfgSafety.
+From DB Require Import Model.RaftNet Model.RaftNetSnap Model.RaftNetCfg Model.RaftNetCfgSnap
+  Proofs.RaftNetLists Proofs.RaftNetElection Proofs.RaftNetLog Proofs.RaftNetCommitDefs
+  Proofs.RaftNetCommit Proofs.RaftNetSafety Proofs.RaftNetSnap Proofs.RaftNetCfgLemmas
+  Proofs.RaftNetCfgInv Proofs.RaftNetCfgStep Proofs.RaftNetCfgSafety Proofs.RaftNetCfgSnap.
 
 (* ================================================================== *)
 (* quorums *)
@@ -602,3 +602,66 @@ Proof.
   destruct (run3 cfg3 cc_payload init3 run_d) as [s|] eqn:E; [|vm_compute in E; discriminate].
   exists s. split; [reflexivity|]. exists run_d. now apply RaftNetCfgSafety.run3_sound.
 Qed.
+
+(* ================================================================== *)
+(* Stages 2 and 3 together (Model/RaftNetCfgSnap.v): membership change with     *)
+(* log compaction and InstallSnapshot                                          *)
+(* ================================================================== *)
+
+(* every reachable state is a reachable stage-3 state with a bigger soup (the Replicate
+   messages every snapshot stands for), so the stage-3 theorems hold for the logical logs *)
+Theorem stage23_refines_stage3 : forall cfg_of is_cc, cfg_contract cfg_of is_cc -> forall s,
+  reachable4 cfg_of is_cc s ->
+  exists ms, reachable3 cfg_of is_cc (with_msgs3 (base4 s) ms) /\ R4 s ms.
+Proof. exact RaftNetCfgSnap.stage23_refines_stage3. Qed.
+Print Assumptions stage23_refines_stage3.
+
+Theorem snapshot_is_committed4 : forall cfg_of is_cc s i,
+  reachable4 cfg_of is_cc s -> first4 s i <= commit (nodes (base3 (base4 s)) i).
+Proof. exact RaftNetCfgSnap.snapshot_is_committed4. Qed.
+Print Assumptions snapshot_is_committed4.
+
+Theorem election_safety4 : forall cfg_of is_cc, cfg_contract cfg_of is_cc -> forall s i j,
+  reachable4 cfg_of is_cc s ->
+  role (nodes (base3 (base4 s)) i) = Leader -> role (nodes (base3 (base4 s)) j) = Leader ->
+  term (nodes (base3 (base4 s)) i) = term (nodes (base3 (base4 s)) j) -> i = j.
+Proof. exact RaftNetCfgSnap.election_safety4. Qed.
+Print Assumptions election_safety4.
+
+Theorem log_matching4 : forall cfg_of is_cc, cfg_contract cfg_of is_cc -> forall s i j k,
+  reachable4 cfg_of is_cc s -> 1 <= k ->
+  k <= length (log (nodes (base3 (base4 s)) i)) -> k <= length (log (nodes (base3 (base4 s)) j)) ->
+  term_at (log (nodes (base3 (base4 s)) i)) k = term_at (log (nodes (base3 (base4 s)) j)) k ->
+  firstn k (log (nodes (base3 (base4 s)) i)) = firstn k (log (nodes (base3 (base4 s)) j)).
+Proof. exact RaftNetCfgSnap.log_matching4. Qed.
+Print Assumptions log_matching4.
+
+Theorem leader_completeness4_trace : forall cfg_of is_cc, cfg_contract cfg_of is_cc ->
+  forall s i k s1 ls s2 j,
+  reachable4 cfg_of is_cc s ->
+  step4 cfg_of is_cc s (L4Base (L3Base (LAdvanceCommit i k))) s1 -> steps4 cfg_of is_cc s1 ls s2 ->
+  role (nodes (base3 (base4 s2)) j) = Leader ->
+  term (nodes (base3 (base4 s)) i) < term (nodes (base3 (base4 s2)) j) ->
+  firstn k (log (nodes (base3 (base4 s2)) j)) = firstn k (log (nodes (base3 (base4 s)) i)).
+Proof. exact RaftNetCfgSnap.leader_completeness4_trace. Qed.
+Print Assumptions leader_completeness4_trace.
+
+Theorem state_machine_safety4 : forall cfg_of is_cc, cfg_contract cfg_of is_cc -> forall s a b k,
+  reachable4 cfg_of is_cc s ->
+  k <= commit (nodes (base3 (base4 s)) a) -> k <= commit (nodes (base3 (base4 s)) b) ->
+  firstn k (log (nodes (base3 (base4 s)) a)) = firstn k (log (nodes (base3 (base4 s)) b)).
+Proof. exact RaftNetCfgSnap.state_machine_safety4. Qed.
+Print Assumptions state_machine_safety4.
+
+Theorem committed_never_replaced4 : forall cfg_of is_cc, cfg_contract cfg_of is_cc ->
+  forall s ls s' i k,
+  reachable4 cfg_of is_cc s -> steps4 cfg_of is_cc s ls s' ->
+  k <= commit (nodes (base3 (base4 s)) i) ->
+  firstn k (log (nodes (base3 (base4 s')) i)) = firstn k (log (nodes (base3 (base4 s)) i)).
+Proof. exact RaftNetCfgSnap.committed_never_replaced4. Qed.
+Print Assumptions committed_never_replaced4.
+
+Theorem applied_le_committed4 : forall cfg_of is_cc, cfg_contract cfg_of is_cc -> forall s i,
+  reachable4 cfg_of is_cc s -> applied (base4 s) i <= commit (nodes (base3 (base4 s)) i).
+Proof. exact RaftNetCfgSnap.applied_le_committed4. Qed.
+Print Assumptions applied_le_committed4.
